@@ -28,7 +28,7 @@ ATTRIBUTE = {"encoding": "encoding", "header": "header", "escape character": "es
              "decimal separator": "decimal_separator", "thousands separator": "thousands_separator", "line delimiter": "line_delimiter", "sheet": "sheet", "skip initial space": "skip_initial_space"}
 QUOTE_SET = "!\"#$%&'*+-/:;=?\\^_`~"
 PRINTABLE = [chr(c) for c in range(32, 127)]
-CODE_POOL = list(range(33, 127)) + [9, 10, 13, 32, 0xE4, 0x20AC]
+CODE_POOL = list(range(33, 127)) + [9, 10, 13, 32, 0xE4, 0x20AC, 0xB2, 0xBD, 0x663, 0x2460]  # incl. characters str.isdigit() / isnumeric() take for digits
 
 
 def field_row(fmt):
@@ -136,7 +136,7 @@ def spellings_of(code):
     if code in intervals.SYMBOLIC:
         name = intervals.SYMBOLIC[code]
         spellings += [name, name.title(), name.upper()]
-    if code > 32 and not character.isdigit() and not character.isspace():
+    if code > 32 and character not in "0123456789" and not character.isspace():
         spellings.append(character)  # literal (deprecated syntax); white space cannot be written this way
     if code >= 32 and character not in "\"'\\":
         spellings += ['"%s"' % character, "'%s'" % character]
